@@ -183,6 +183,13 @@ func (c *Ctx) execFunc(fr *Frame, args []Val, st *State, R string) ([]Val, *Stat
 			c.fail("loop annotation %q of %s matches no loop", la.Desc, fr.fn)
 		}
 	}
+	if fr.top && fr.contract != nil {
+		for _, ca := range fr.contract.Calls {
+			if !ca.matched {
+				c.fail("call-site annotation %q of %s matches no call", ca.Callee, fr.fn)
+			}
+		}
+	}
 	if len(fr.rets) == 0 {
 		return nil, st, "false"
 	}
